@@ -37,7 +37,7 @@
 #include "common.h"
 
 #define MAXL 16
-#define MAXF 16
+#define MAXF 48
 #define MAXNEG 8
 
 /* ------------------------------------------------------------------ scripted source */
